@@ -348,6 +348,23 @@ func (d *dirtyPlugin) PostReadCallBody(c erpc.ReadCtx) *erpc.Status {
 	c.Swap().Store("plugin-left-this", "dirty-plugin-"+string(c.PeekMeta("Mk")))
 	return nil
 }
+
+// PostReadPushBody dirties the (unused) output message of a context that handles a push: the next user of
+// the context must not see it.
+func (d *dirtyPlugin) PostReadPushBody(c erpc.ReadCtx) *erpc.Status {
+	if d.env.Gen.Chance(0.7) {
+		w, ok := c.(erpc.WriteCtx) // the context object implements every context interface
+		if !ok {
+			return nil
+		}
+		o := w.Output()
+		o.Meta().Set("Left-Over", "dirty-on-push")
+		o.XferPipe().Append(world.FGzip5)
+		o.SetBodyCodec('p')
+		o.SetStatus(erpc.NewStatus(3999, "left by a push hook", ""))
+	}
+	return nil
+}
 func (d *dirtyPlugin) PreWriteReply(c erpc.WriteCtx) *erpc.Status {
 	if d.env.Gen.Chance(0.5) {
 		c.Output().Meta().Add("Dirty-Plugin", "dirty-meta")
@@ -470,7 +487,7 @@ func runC20System(t *testing.T, seed uint64, m *Mask, opt world.Options, r *simr
 			res  world.Payload
 			meta map[string][]string
 		}
-		calls := make([]*call, n)
+		calls := make([]*call, n+3)
 		run := func(i int) {
 			c := &call{tag: fmt.Sprintf("T%x.s%d", seed&0xffffff, i), meta: map[string][]string{}}
 			calls[i] = c
@@ -534,6 +551,20 @@ func runC20System(t *testing.T, seed uint64, m *Mask, opt world.Options, r *simr
 				}
 			}
 			e.Probe("c20-unknown-handler-messages")
+		}
+		// a foreign connection sends one frame of a message type the framework does not serve and is dropped
+		if e.Gen.Chance(0.5) {
+			ra, rb := e.Net.Pair()
+			if _, st := srv.ServeConn(rb, pf); st.OK() {
+				world.NewRawPeer(ra, pf).Send(byte(7+e.Gen.Intn(100)), 1, "/dirty/mess", 'j', []byte(`{}`), nil, nil, nil)
+				simrt.WaitQuiescent()
+				ra.Close()
+				e.Probe("c20-unsupported-type-frame")
+			}
+		}
+		// and ordinary calls again, on contexts that have meanwhile handled pushes and unknown messages
+		for i := n; i < n+3; i++ {
+			run(i)
 		}
 		simrt.WaitQuiescent()
 		for _, c := range calls {
